@@ -84,6 +84,7 @@ type w1Cfg struct {
 	MetaTTLSec      int  `json:"history_meta_ttl_s"`
 	HistoryMax      int  `json:"history_max_publication_limit"`
 	RecoveryMax     int  `json:"recovery_max_publication_limit"`
+	SubDelayPm      int  `json:"broker_subscribe_delay_pm"`
 	SubFailPm       int  `json:"broker_subscribe_fail_pm"`
 	UnsubFailPm     int  `json:"broker_unsubscribe_fail_pm"`
 	SettleMs        int  `json:"settle_ms"`
@@ -807,7 +808,15 @@ func (w *w1World) setup() error {
 		c.OnUnsubscribe(func(e UnsubscribeEvent) { cl.cb("unsubscribe", e.Channel, e.Code) })
 		c.OnPublish(func(e PublishEvent, cb PublishCallback) {
 			cl.cb("publish", e.Channel, 0)
+			// ground truth also for publications made through the client API (no tags)
+			rec := &w1PubRec{Seq: w.next(), Ch: e.Channel, Data: string(e.Data)}
+			w.pubs = append(w.pubs, rec)
 			res, err := node.Publish(e.Channel, e.Data, w.publishOpts(e.Channel)...)
+			rec.RetSeq = w.next()
+			rec.Offset, rec.Epoch = res.Offset, res.Epoch
+			if err != nil {
+				rec.Err = err.Error()
+			}
 			cb(PublishReply{Result: &res}, err)
 		})
 		c.OnHistory(func(e HistoryEvent, cb HistoryCallback) {
@@ -887,6 +896,11 @@ func (b *w1PubSub) RegisterBrokerEventHandler(h BrokerEventHandler) error {
 	return b.inner.RegisterBrokerEventHandler(b)
 }
 func (b *w1PubSub) Subscribe(ch ...string) error {
+	if b.w.s.Chance(b.w.sc.Cfg.SubDelayPm) {
+		// a slow broker round trip (the node holds the channel's subscription lock)
+		b.w.s.Fault("broker_subscribe_delay")
+		b.w.s.Sleep([]time.Duration{50 * time.Millisecond, 6500 * time.Millisecond}[b.w.s.Intn(2)])
+	}
 	if b.w.s.Chance(b.w.sc.Cfg.SubFailPm) {
 		b.w.s.Fault("broker_subscribe_error")
 		return errors.New("sim broker subscribe error")
@@ -1205,10 +1219,10 @@ func w1Run(s *simrt.Sim, script any, prop string) {
 // ---------------------------------------------------------------- generator
 
 var w1Flavours = map[string][]string{
-	"C04": {"_", "p_", "ej_", "r_"},
-	"C05": {"_", "pe_", "ejJ_", "r_", "e_"},
+	"C04": {"_", "p_", "ej_", "r_", "d_", "_"},
+	"C05": {"_", "pe_", "ejJ_", "r_", "e_", "d_"},
 	"C10": {"_", "_", "p_", "jJ_", "r_", "b_", "pb_", "jJb_"},
-	"C01": {"p_", "r_", "r_", "p_"},
+	"C01": {"p_", "r_", "r_", "p_", "rf_", "pf_"},
 	"C06": {"e_", "e_", "pe_"},
 	"C07": {"jJ_", "jJ_", "jJe_"},
 	"C08": {"_", "p_", "ejJ_"},
@@ -1220,7 +1234,7 @@ var w1Flavours = map[string][]string{
 	"C02": {"r_", "r_"},
 	"C38": {"pm_", "rm_", "m_", "pm_"},
 	"C16": {"f_", "pf_", "rf_", "cf_"},
-	"C14": {"pd_", "rd_", "pfd_", "rd_"},
+	"C14": {"pd_", "rd_", "pfd_", "rd_", "d_"},
 	"C03": {"c_", "c_"},
 	"C37": {"_", "p_"},
 }
@@ -1286,6 +1300,9 @@ func w1Gen(c *simrt.Choice, prop, tier string) any {
 	if prop == "C43" {
 		cfg.HistoryMax = []int{0, 1, 2, 5}[c.Intn(4)]
 		cfg.HistorySize = []int{3, 10}[c.Intn(2)]
+	}
+	if (prop == "C04" || prop == "C05" || prop == "C26" || prop == "C08") && c.Intn(3) == 0 {
+		cfg.SubDelayPm = []int{100, 300}[c.Intn(2)]
 	}
 	if prop == "C26" {
 		cfg.SubFailPm = []int{0, 100, 300}[c.Intn(3)]
